@@ -52,7 +52,8 @@ func statNilTest(c *Ctx, loop *ssa.Function) *ssa.If {
 		if !ok || out != nil {
 			return
 		}
-		bo, ok := iff.Cond.(*ssa.BinOp)
+		// (the test may be wrapped in a predicate helper)
+		bo, ok := eng.Resolve(iff.Cond).(*ssa.BinOp)
 		if !ok || bo.Op != token.EQL {
 			return
 		}
@@ -226,7 +227,11 @@ func r07_1mem(c *Ctx, rule string, loop *ssa.Function, upd *ssa.MapUpdate, cell 
 	c.R.Floor(rule, "increments of the id counter in the receive loop", n, 1)
 	if cond != nil {
 		x := c.explorer(loop)
-		ok, hit, und := c.Precedes(loop, cond, map[string]bool{x.KeyAtEntry(nilTest.Cond): false}, isInc, isRecv)
+		as := map[string]bool{x.KeyAtEntry(nilTest.Cond): false}
+		if r := eng.Resolve(nilTest.Cond); r != nilTest.Cond {
+			as[x.KeyAtEntry(r)] = false
+		}
+		ok, hit, und := c.Precedes(loop, cond, as, isInc, isRecv)
 		switch {
 		case und:
 			c.R.Undecided(rule, base+"/every-stat-counted", c.pos(nilTest), "state limit")
